@@ -123,6 +123,14 @@ func Stat(name string) (FileInfo, error) {
 	return info{i}, nil
 }
 func Lstat(name string) (FileInfo, error)       { return Stat(name) }
+
+// SameFile: the simulated disk has no links, two infos name the same file
+// exactly when they carry the same name.
+func SameFile(fi1, fi2 FileInfo) bool {
+	a, ok1 := fi1.(info)
+	b, ok2 := fi2.(info)
+	return ok1 && ok2 && a.i.Name == b.i.Name && !a.i.Pipe && !b.i.Pipe
+}
 func Remove(name string) error                  { return simos.Remove(name) }
 func Rename(oldpath, newpath string) error      { return simos.Rename(oldpath, newpath) }
 func Mkdir(name string, perm FileMode) error    { return simos.Mkdir(name) }
